@@ -584,6 +584,15 @@ func rulesC09(c *Ctx) {
 		c.Floor("L8", n8, 1)
 	}
 
+	// ---- L9 listings and contents are handed out as copies (same rule as C01.R5) ----
+	// (a clipped view d.nodes[:n:n] is rewritten in place by a later Remove: the reader's listing
+	// changes under it without any lock)
+	if fsT9 := c.P.Named(memfsPkg, "Filespace"); fsT9 != nil {
+		if fi9 := c.P.Iface("filesystem", "Filespace"); fi9 != nil {
+			c.Floor("L9", ruleSnapshotOut(c, "L9", c.P.MethodsOf(fsT9, fi9)), 2)
+		}
+	}
+
 	// ---- L5 no lock leak -------------------------------------------------------
 	acq := 0
 	for _, f := range fns {
